@@ -106,4 +106,26 @@ def tableInvariant (rs : List Route) : Bool × Bool :=
   (tiNode (maxParam rs) [] t && decide (t.kind = .static),
    (resid t).isPerm (initial (rs.map mkEntry)) && uniqB (initial (rs.map mkEntry)))
 
+/-- a pattern the tree can represent faithfully: no escaped colon (`\\:` — a literal colon shares its tree
+    label with a parameter, findings F2/F3) and no text after `*`.  Scans like `normAux`. -/
+def okPatternAux : Nat → Str → Bool
+  | 0, _ => true
+  | _ + 1, [] => true
+  | f + 1, c :: rest =>
+    if c = '\\' ∧ rest.head? = some ':' then false
+    else if c = ':' then okPatternAux f (rest.dropWhile (· ≠ '/'))
+    else if c = '*' then rest.isEmpty
+    else okPatternAux f rest
+
+def okPattern (p : Str) : Bool :=
+  let p := normalizeSlash p
+  okPatternAux (p.length + 1) p
+
+/-- **well-formed table**: every pattern is representable and no two routes have the same method and
+    the same normalised pattern (such a pair is one route registered twice: the later replaces the
+    earlier).  For these tables `tableInvariant` is expected to hold always (theorem in progress:
+    `EchoProofs/Tree/Insert.lean`); the driver reports the three facts for every table. -/
+def wfTable (rs : List Route) : Bool :=
+  rs.all (fun r => okPattern r.path) && uniqB (initial (rs.map mkEntry))
+
 end Router.Tree
